@@ -75,7 +75,8 @@ pub fn programs(family: &str, _tier: Tier) -> Vec<Prog> {
         "pure" => vec![Fam::Pure],
         "identity" => vec![Fam::Identity],
         "map2" => vec![Fam::Map2],
-        "bind" => vec![Fam::BindExisting, Fam::BindFresh],
+        "bind" => vec![Fam::BindExisting, Fam::BindFresh, Fam::OuterSwitch],
+        "switch" => vec![Fam::OuterSwitch],
         "ignore" => vec![Fam::IgnoreConst, Fam::IgnoreOuter],
         "shared" => vec![Fam::SharedOuter, Fam::SharedConst, Fam::SharedHalfPinned],
         "shared-pinned" => vec![Fam::SharedHalfPinned],
